@@ -202,6 +202,33 @@ class Trace:
         return self._h.hexdigest()
 
 
+class Held:
+    """Values the system under test has returned and the caller still
+    holds (references, not copies).  Whatever happens later - normalising,
+    re-reading, other calls - an array that was handed out must not change
+    under the caller's feet."""
+
+    def __init__(self, limit=24):
+        self.items = []
+        self.limit = limit
+
+    def add(self, name, value):
+        from simphot.compare import digest
+        if isinstance(value, Raised) or value is None:
+            return
+        if len(self.items) >= self.limit:
+            self.items.pop(0)
+        self.items.append((name, value, digest(value)))
+
+    def check(self, where=''):
+        from simphot.compare import digest
+        for name, value, d0 in self.items:
+            if digest(value) != d0:
+                raise Violation('returned_value_changed', name,
+                                f'a value returned earlier by {name} was '
+                                f'modified in place {where}')
+
+
 class Machine:
     """Interface of a simulation machine (one per claimed property)."""
 
